@@ -19,10 +19,7 @@
 (* from Heights (an ultrametric generator; equal heights on unrelated nodes   *)
 (* give ties) the matrix D = 2 * height(lca) leads, along every tie-break, to *)
 (* exactly the generator's clades with the generator's edge lengths.          *)
-EXTENDS NJTrees, Emit
-
-CONSTANTS N,        \* number of tips, >= 2
-          Heights   \* set of positive integers
+EXTENDS UPGMATrees, Emit      \* UPGMATrees: constants N, Heights; the ultrametric generators
 
 VARIABLES gen,      \* [tree |-> family of clades over 1..N, h |-> [internal clades -> Heights]]
           dm,       \* the input matrix [Tips -> [Tips -> Nat]]
@@ -32,23 +29,6 @@ VARIABLES gen,      \* [tree |-> family of clades over 1..N, h |-> [internal cla
           edges,    \* {<<clade, <<num, den>>>>}
           phase
 vars == <<gen, dm, mem, ht, w, wsc, edges, phase>>
-
-Tips == 1..N
-Full == 1..N
-
-(* ---- generators ---------------------------------------------------------------- *)
-Internal(T) == {C \in T : Cardinality(C) >= 2}
-HeightMaps(T) == {h \in [Internal(T) -> Heights] :
-                     \A C, P \in Internal(T) : (C \subseteq P /\ C # P) => h[C] < h[P]}
-Generators == UNION {{[tree |-> T, h |-> h] : h \in HeightMaps(T)} : T \in Families(1, N)}
-
-SetMin(S) == CHOOSE m \in S : \A x \in S : m <= x
-LcaHeight(g, a, b) == SetMin({g.h[C] : C \in {X \in Internal(g.tree) : a \in X /\ b \in X}})
-GenMatrix(g) == [a \in Tips |-> [b \in Tips |-> IF a = b THEN 0 ELSE 2 * LcaHeight(g, a, b)]]
-H0(g, C) == IF Cardinality(C) = 1 THEN 0 ELSE g.h[C]
-Parent(g, C) == CHOOSE P \in g.tree : /\ C \subseteq P /\ C # P
-                                      /\ \A X \in g.tree : (C \subseteq X /\ C # X) => P \subseteq X
-GenEdges(g) == {<<C, <<g.h[Parent(g, C)] - H0(g, C), 1>>>> : C \in g.tree \ {Full}}
 
 (* ---- the algorithm, on any matrix ------------------------------------------------ *)
 Ids == DOMAIN mem
